@@ -153,10 +153,12 @@ where
         if let Some(shard) = self.shard.take() {
             let mut shard = shard.write();
             match shard.entry(self.hash(), |p| self.key() == p.key(), |p| p.hash()) {
-                HashTableEntry::Occupied(o) => {
+                // Only release the piece this reference was created for: a newer piece of the same
+                // key may have replaced it in the meantime and must stay until its own write is done.
+                HashTableEntry::Occupied(o) if std::ptr::eq(o.get().key(), self.key()) => {
                     o.remove();
                 }
-                HashTableEntry::Vacant(_) => {}
+                HashTableEntry::Occupied(_) | HashTableEntry::Vacant(_) => {}
             }
         }
     }
